@@ -3,16 +3,18 @@ package main
 import (
 	"fmt"
 	"go/ast"
+	"go/constant"
 	"go/token"
 	"go/types"
+	"sort"
 	"strings"
 
 	"golang.org/x/tools/go/ssa"
 )
 
 func init() {
-	register(&Rule{ID: "R-cast-boundary", Floor: 9, Run: ruleCastBoundary,
-		Doc: "the dynamic→static boundary of C12: (a) every store into AnalyzedLetStatement.NeedsRuntimeTypeValidation inside the analyzer is the unmodified result of the recursive any-check Analyzer.CheckAny applied to the initializer's type (a shallow kind test lets `?any`, `[any]`, `{f: any}` initializers through unchecked); (b) the compiler's let lowering emits the cast instruction exactly under `if node.NeedsRuntimeTypeValidation`; (c) the interpreter's let binds the variable on every non-error path, through DeepCast iff the flag is set; (d) SpawnSync/SpawnAsync DeepCast every argument against its declared parameter type before the core is spawned and stop on failure; (e) HandleTermination DeepCasts the returned value to the declared return type for every type kind that carries a value; (f) in the VM a DeepCast failure becomes the catchable throw interrupt."})
+	register(&Rule{ID: "R-cast-boundary", Floor: 12, Run: ruleCastBoundary,
+		Doc: "the dynamic→static boundary of C12, decided on types / SSA data flow / the call graph (helpers of the package are entered with the arguments substituted for their parameters, so it does not matter whether a loop, guard or cast is written in the entry point or in a helper): (a) every store into AnalyzedLetStatement.NeedsRuntimeTypeValidation inside the analyzer is the unmodified result of the recursive any-check Analyzer.CheckAny (directly, through a wrapper that returns it, or through a parameter all of whose call sites pass it); a shallow kind test lets `?any`, `[any]`, `{f: any}` initializers through unchecked; (b) the compiler's let lowering, evaluated with the flag fixed to true and to false: with the flag set every path emits a CastInstruction built from node.OptType, with the flag clear no emission is reachable; (c) the interpreter's let, same evaluation: every normal (non-error) exit has bound the variable; with the flag set it passed DeepCast against node.OptType and binds the cast result, with the flag clear no such cast is reachable; (d) SpawnSync/SpawnAsync: every call that (transitively) starts the goroutine of the new core is dominated by the exit of a loop that visits every position below len(Params)/len(Args), hands Args[i] and Params[i].Type of the same invocation to DeepCast on every iteration (no skip, no early leave) and cannot continue after a failed cast; (e) HandleTermination, evaluated once per constant of the return-type kind enumeration and once for a kind outside it: on every non-exception return the value handed to the host is the result of DeepCast against the declared return type, except for kinds that are singled out, which must be the value-less ones (null, never, unknown); (f) the DeepCast executed for Opcode_Cast (type argument = CastInstruction.Type): every return reachable from its failure branch hands back value.NewVMThrowInterrupt, the catchable interrupt; a panic there crashes the host."})
 }
 
 func ruleCastBoundary(c *Ctx) []Obligation {
@@ -23,6 +25,7 @@ func ruleCastBoundary(c *Ctx) []Obligation {
 	out = append(out, actxCastSpawn(c)...)
 	out = append(out, actxCastTermination(c)...)
 	out = append(out, actxCastVMCatchable(c)...)
+	out = append(out, actxCastSupersedes(c)...)
 	return out
 }
 
@@ -35,10 +38,70 @@ func actxValueIsCallTo(v ssa.Value, target *ssa.Function, seen map[ssa.Value]boo
 	seen[v] = true
 	switch x := v.(type) {
 	case *ssa.Call:
-		if x.Common().StaticCallee() == target {
+		g := x.Common().StaticCallee()
+		if g == target {
 			return true, ""
 		}
+		// a wrapper: every return of the callee hands back (first result) the result of the target
+		if g != nil && g.Blocks != nil && len(seen) < 40 && g.Signature.Results().Len() == 1 {
+			rets := actxReturns(g)
+			for _, r := range rets {
+				if len(r.Results) != 1 {
+					return false, "the result of a call to " + g.Name()
+				}
+				if ok, why := actxValueIsCallTo(r.Results[0], target, seen); !ok {
+					return false, "the result of " + g.Name() + ", which returns " + why
+				}
+			}
+			if len(rets) > 0 {
+				return true, ""
+			}
+		}
 		return false, "the result of a call to " + x.Common().Value.Name()
+	case *ssa.Parameter:
+		// a helper that receives the flag: every static call site must pass the target's result
+		fn := x.Parent()
+		idx := -1
+		for i, p := range fn.Params {
+			if p == x {
+				idx = i
+			}
+		}
+		if idx < 0 || fn.Pkg == nil || fn.Object() == nil || fn.Object().Exported() {
+			return false, "the parameter " + x.Name() + " of " + fn.Name()
+		}
+		n := 0
+		for _, mem := range actxAllFuncs(fn.Pkg) {
+			for _, b := range mem.Blocks {
+				for _, ins := range b.Instrs {
+					ci, ok := ins.(ssa.CallInstruction)
+					if !ok {
+						continue
+					}
+					cc := ci.Common()
+					if cc.StaticCallee() != fn {
+						// the function used as a value: call sites unknown
+						for _, op := range ins.Operands(nil) {
+							if *op == ssa.Value(fn) {
+								return false, "the parameter " + x.Name() + " of " + fn.Name() + ", which is used as a function value"
+							}
+						}
+						continue
+					}
+					if idx >= len(cc.Args) {
+						return false, "the parameter " + x.Name() + " of " + fn.Name()
+					}
+					n++
+					if ok, why := actxValueIsCallTo(cc.Args[idx], target, seen); !ok {
+						return false, "the parameter " + x.Name() + " of " + fn.Name() + ", for which a caller passes " + why
+					}
+				}
+			}
+		}
+		if n == 0 {
+			return false, "the parameter " + x.Name() + " of " + fn.Name() + " (no static call site)"
+		}
+		return true, ""
 	case *ssa.Phi:
 		for _, e := range x.Edges {
 			if ok, why := actxValueIsCallTo(e, target, seen); !ok {
@@ -102,6 +165,7 @@ func actxCastLetFlag(c *Ctx) []Obligation {
 	for fn := range ssaFuncsOf(c, sp) {
 		fns = append(fns, fn)
 	}
+	sort.Slice(fns, func(i, j int) bool { return fns[i].String() < fns[j].String() })
 	for _, fn := range fns {
 		for _, b := range fn.Blocks {
 			for _, ins := range b.Instrs {
@@ -143,6 +207,44 @@ func actxCastLetFlag(c *Ctx) []Obligation {
 	}
 	if n == 0 {
 		out = append(out, Obligation{Key: "homescript/analyzer|NeedsRuntimeTypeValidation", Status: Undecided, Detail: "no store into AnalyzedLetStatement.NeedsRuntimeTypeValidation found in package analyzer"})
+	}
+	return out
+}
+
+// actxAllFuncs: every function with a body that belongs to the package (methods and closures included).
+func actxAllFuncs(sp *ssa.Package) []*ssa.Function {
+	var out []*ssa.Function
+	seen := map[*ssa.Function]bool{}
+	var add func(f *ssa.Function)
+	add = func(f *ssa.Function) {
+		if f == nil || seen[f] || f.Blocks == nil {
+			return
+		}
+		seen[f] = true
+		out = append(out, f)
+		for _, a := range f.AnonFuncs {
+			add(a)
+		}
+	}
+	var names []string
+	for name := range sp.Members {
+		names = append(names, name)
+	}
+	sort.Strings(names)
+	for _, name := range names {
+		switch m := sp.Members[name].(type) {
+		case *ssa.Function:
+			add(m)
+		case *ssa.Type:
+			for _, t := range []types.Type{m.Type(), types.NewPointer(m.Type())} {
+				ms := sp.Prog.MethodSets.MethodSet(t)
+				for i := 0; i < ms.Len(); i++ {
+					if f := sp.Prog.MethodValue(ms.At(i)); f != nil && f.Pkg == sp {
+						add(f)
+					}
+				}
+			}
+		}
 	}
 	return out
 }
@@ -197,11 +299,6 @@ func actxFuncsTaking(c *Ctx, rel, recv, paramType string) []*ast.FuncDecl {
 	return out
 }
 
-func actxIsFlagRead(e ast.Expr) bool {
-	sel, ok := ast.Unparen(e).(*ast.SelectorExpr)
-	return ok && sel.Sel.Name == "NeedsRuntimeTypeValidation"
-}
-
 func actxCallsNamed(n ast.Node, info *types.Info, name string) []*ast.CallExpr {
 	var out []*ast.CallExpr
 	if n == nil {
@@ -218,57 +315,127 @@ func actxCallsNamed(n ast.Node, info *types.Info, name string) []*ast.CallExpr {
 	return out
 }
 
+// actxSSAOf: the SSA function of a declaration.
+func actxSSAOf(c *Ctx, rel string, fd *ast.FuncDecl) *ssa.Function {
+	c.SSA()
+	p := c.Pkg(rel)
+	obj, _ := p.TypesInfo.Defs[fd.Name].(*types.Func)
+	if obj == nil {
+		return nil
+	}
+	return c.Prog.FuncValue(obj)
+}
+
+// actxLetParam: the parameter that carries the analysed let statement, and the
+// symbolic path of its validation flag / annotated type.
+func actxLetParam(fn *ssa.Function) *ssa.Parameter {
+	for _, p := range fn.Params {
+		if n, ok := p.Type().(*types.Named); ok && n.Obj().Name() == "AnalyzedLetStatement" {
+			return p
+		}
+	}
+	return nil
+}
+
+func actxBoolAbs(b bool) actxAbs { return actxAbs{k: abConst, c: constant.MakeBool(b)} }
+
 // (b) ------------------------------------------------------------------------
 
+// Decided on the SSA form with the flag fixed to true / false (conditions that
+// depend on it are folded, helpers of the package are entered with their
+// arguments substituted): with the flag set every path to a return passes the
+// emission of a cast instruction built from the annotated type; with the flag
+// clear no emission is reachable. An emission is the conversion of a
+// compiler.CastInstruction value to the instruction interface (wherever the
+// value was constructed).
 func actxCastCompilerLet(c *Ctx) []Obligation {
-	p := c.Pkg("homescript/compiler")
-	info := p.TypesInfo
 	fds := actxFuncsTaking(c, "homescript/compiler", "Compiler", "AnalyzedLetStatement")
 	if len(fds) == 0 {
 		return []Obligation{{Key: "homescript/compiler|let lowering", Status: Undecided, Detail: "no Compiler method takes an AnalyzedLetStatement"}}
 	}
+	sp := c.SSAPkg("homescript/compiler")
+	var castT types.Type
+	if t := sp.Type("CastInstruction"); t != nil {
+		castT = t.Type()
+	}
+	if castT == nil {
+		fatalf("anchor unresolved: compiler.CastInstruction")
+	}
 	var out []Obligation
 	for _, fd := range fds {
 		key := "homescript/compiler." + FuncName(fd) + "|cast iff NeedsRuntimeTypeValidation"
-		casts := actxCallsNamed(fd.Body, info, "newCastInstruction")
-		var guarded, unguarded int
+		ob := Obligation{Key: key, Pos: c.Pos(fd.Pos()), Nontrivial: true}
+		fn := actxSSAOf(c, "homescript/compiler", fd)
+		var lp *ssa.Parameter
+		if fn != nil {
+			lp = actxLetParam(fn)
+		}
+		if lp == nil {
+			ob.Status, ob.Detail = Undecided, "SSA form / let parameter not found"
+			out = append(out, ob)
+			continue
+		}
+		root := actxNewFrame(fn, nil, 0).sym(lp)
+		flag := root + ".NeedsRuntimeTypeValidation"
 		var bad []string
-		ast.Inspect(fd.Body, func(n ast.Node) bool {
-			ifs, ok := n.(*ast.IfStmt)
-			if !ok {
-				return true
+		emission := func(ef *actxEvalFrame, ins ssa.Instruction) bool {
+			mi, ok := ins.(*ssa.MakeInterface)
+			return ok && types.Identical(mi.X.Type(), castT)
+		}
+		// the type the emitted instruction casts to
+		fromOpt := func(ef *actxEvalFrame, ins ssa.Instruction) bool {
+			mi, ok := ins.(*ssa.MakeInterface)
+			if !ok || !types.Identical(mi.X.Type(), castT) {
+				return false
 			}
-			if actxIsFlagRead(ifs.Cond) {
-				in := actxCallsNamed(ifs.Body, info, "newCastInstruction")
-				guarded += len(in)
-				if len(in) == 0 {
-					bad = append(bad, "the branch taken when the flag is set emits no cast instruction")
-				}
-				for _, ce := range in {
-					// cast to the annotated type
-					if len(ce.Args) == 0 || !strings.Contains(exprStr(ce.Args[0]), "OptType") {
-						bad = append(bad, "the cast instruction is not built from the annotated type (OptType)")
+			okT := false
+			switch x := mi.X.(type) {
+			case *ssa.Call:
+				for _, a := range x.Call.Args {
+					if ef.fr.sym(a) == root+".OptType" {
+						okT = true
 					}
 				}
-				if ifs.Else != nil && len(actxCallsNamed(ifs.Else, info, "newCastInstruction")) > 0 {
-					bad = append(bad, "a cast is also emitted when the flag is not set")
+			case *ssa.UnOp:
+				if al, isAl := x.X.(*ssa.Alloc); isAl {
+					for i := 0; i < castT.Underlying().(*types.Struct).NumFields(); i++ {
+						for _, v := range ef.fieldStores(al, i) {
+							if ef.fr.sym(v) == root+".OptType" {
+								okT = true
+							}
+						}
+					}
 				}
-			} else if strings.Contains(exprStr(ifs.Cond), "NeedsRuntimeTypeValidation") {
-				bad = append(bad, "the flag is combined with other conditions: "+exprStr(ifs.Cond))
+			}
+			if !okT {
+				bad = append(bad, "the cast instruction emitted at "+c.Pos(ins.Pos())+" is not built from the annotated type (OptType)")
 			}
 			return true
-		})
-		unguarded = len(casts) - guarded
-		ob := Obligation{Key: key, Pos: c.Pos(fd.Pos()), Nontrivial: true}
+		}
+		run := func(v bool) *actxEvalFrame {
+			ev := &actxKindEval{c: c, assume: map[string]actxAbs{flag: actxBoolAbs(v)}}
+			return ev.newFrame(actxNewFrame(fn, nil, 0), map[*ssa.Parameter]actxAbs{})
+		}
+		free := (&actxKindEval{c: c}).newFrame(actxNewFrame(fn, nil, 0), map[*ssa.Parameter]actxAbs{})
+		on, off := run(true), run(false)
 		switch {
-		case len(casts) == 0:
+		case !free.mayPass(emission, nil):
 			ob.Status, ob.Detail = Violated, "the let lowering never emits a cast instruction: an any-typed initializer is bound unchecked"
-		case unguarded != 0:
-			ob.Status, ob.Detail = Violated, fmt.Sprintf("%d cast emission(s) are not under `if node.NeedsRuntimeTypeValidation`", unguarded)
-		case len(bad) > 0:
-			ob.Status, ob.Detail = Violated, strings.Join(bad, "; ")
+		case off.mayPass(emission, nil):
+			ob.Status, ob.Detail = Violated, "a cast emission is reachable when NeedsRuntimeTypeValidation is not set (the emission is not under the flag, or the flag is combined with other conditions)"
+		case !on.mustPass(emission, nil):
+			d := "with NeedsRuntimeTypeValidation set, a path reaches the end of the lowering without emitting the cast instruction"
+			if r := on.uncoveredReturn(emission); r != nil {
+				d += " (return at " + c.Pos(r.Pos()) + ")"
+			}
+			ob.Status, ob.Detail = Violated, d
 		default:
-			ob.Status, ob.Detail = Discharged, "newCastInstruction(node.OptType, …) is emitted exactly under `if node.NeedsRuntimeTypeValidation`, after the initializer is compiled"
+			on.mayPass(fromOpt, nil)
+			if len(bad) > 0 {
+				ob.Status, ob.Detail = Violated, strings.Join(actxUniq(bad), "; ")
+			} else {
+				ob.Status, ob.Detail = Discharged, "a CastInstruction built from node.OptType is emitted on every path exactly when node.NeedsRuntimeTypeValidation is set"
+			}
 		}
 		out = append(out, ob)
 	}
@@ -277,90 +444,127 @@ func actxCastCompilerLet(c *Ctx) []Obligation {
 
 // (c) ------------------------------------------------------------------------
 
-type actxLetState struct {
-	flag  int // 0 unknown, 1 set, 2 not set
-	cast  bool
-	bound bool
-	dec   []string
+// actxInterpBinders: the Interpreter methods that bind a name in the current
+// scope: they store a value parameter into a map under a string parameter.
+func actxInterpBinders(c *Ctx) map[*ssa.Function]bool {
+	out := map[*ssa.Function]bool{}
+	for _, fn := range actxAllFuncs(c.SSAPkg("homescript/interpreter")) {
+		if fn.Signature.Recv() == nil {
+			continue
+		}
+		for _, b := range fn.Blocks {
+			for _, ins := range b.Instrs {
+				mu, ok := ins.(*ssa.MapUpdate)
+				if !ok {
+					continue
+				}
+				if kp, ok := mu.Key.(*ssa.Parameter); ok {
+					if bt, ok := kp.Type().Underlying().(*types.Basic); ok && bt.Kind() == types.String {
+						out[fn] = true
+					}
+				}
+			}
+		}
+	}
+	return out
 }
 
 func actxCastInterpLet(c *Ctx) []Obligation {
-	p := c.Pkg("homescript/interpreter")
-	info := p.TypesInfo
 	fds := actxFuncsTaking(c, "homescript/interpreter", "Interpreter", "AnalyzedLetStatement")
 	if len(fds) == 0 {
 		return []Obligation{{Key: "homescript/interpreter|let", Status: Undecided, Detail: "no Interpreter method takes an AnalyzedLetStatement"}}
 	}
+	deepCast := c.SSAPkg("homescript/interpreter/value").Func("DeepCast")
+	if deepCast == nil {
+		fatalf("anchor unresolved: interpreter/value.DeepCast")
+	}
+	binders := actxInterpBinders(c)
+	if len(binders) == 0 {
+		fatalf("anchor unresolved: no Interpreter method stores a value under a name in a scope map")
+	}
 	var out []Obligation
 	for _, fd := range fds {
-		var bad []string
-		n := 0
-		w := &Walker[*actxLetState]{Clone: func(s *actxLetState) *actxLetState {
-			x := *s
-			x.dec = append([]string(nil), s.dec...)
-			return &x
-		}}
-		scan := func(st *actxLetState, n ast.Node) {
-			if n == nil {
-				return
-			}
-			if len(actxCallsNamed(n, info, "DeepCast")) > 0 {
-				st.cast = true
-			}
-			if len(actxCallsNamed(n, info, "addVar")) > 0 {
-				st.bound = true
-			}
-		}
-		w.IsPanic = func(s ast.Stmt) bool { return IsPanicCall(info, s) }
-		w.OnStmt = func(st *actxLetState, s ast.Stmt) (*actxLetState, bool) {
-			if _, isRet := s.(*ast.ReturnStmt); !isRet {
-				scan(st, s)
-			}
-			return st, true
-		}
-		w.OnCond = func(st *actxLetState, cond ast.Expr, taken bool) (*actxLetState, bool) {
-			if actxIsFlagRead(cond) {
-				v := 2
-				if taken {
-					v = 1
-				}
-				if st.flag != 0 && st.flag != v {
-					return st, false
-				}
-				st.flag = v
-			}
-			st.dec = append(st.dec, fmt.Sprintf("%s=%v", exprStr(cond), taken))
-			return st, true
-		}
-		w.Exit = func(st *actxLetState, o outcome) {
-			if o.kind == cPanic || o.ret == nil {
-				return
-			}
-			// error exit: returns a non-nil interrupt
-			for _, r := range o.ret.Results {
-				if id, ok := ast.Unparen(r).(*ast.Ident); !ok || id.Name != "nil" {
-					return
-				}
-			}
-			n++
-			where := fmt.Sprintf("return at %s [%s]", c.Pos(o.ret.Pos()), strings.Join(st.dec, ", "))
-			switch {
-			case !st.bound:
-				bad = append(bad, "the statement completes normally without binding the variable (no cast, no addVar): "+where)
-			case st.flag == 1 && !st.cast:
-				bad = append(bad, "flag set but the value is bound without DeepCast: "+where)
-			case st.flag == 2 && st.cast:
-				bad = append(bad, "flag not set but the value goes through DeepCast: "+where)
-			case st.flag == 0 && !st.cast:
-				bad = append(bad, "the flag is not consulted on this path and the value is bound without DeepCast: "+where)
-			}
-		}
-		w.Run(fd.Body, &actxLetState{})
 		ob := Obligation{Key: "homescript/interpreter." + FuncName(fd) + "|DeepCast iff NeedsRuntimeTypeValidation, always bound", Pos: c.Pos(fd.Pos()), Nontrivial: true}
+		fn := actxSSAOf(c, "homescript/interpreter", fd)
+		var lp *ssa.Parameter
+		if fn != nil {
+			lp = actxLetParam(fn)
+		}
+		if lp == nil {
+			ob.Status, ob.Detail = Undecided, "SSA form / let parameter not found"
+			out = append(out, ob)
+			continue
+		}
+		root := actxNewFrame(fn, nil, 0).sym(lp)
+		flag := root + ".NeedsRuntimeTypeValidation"
+		isCall := func(ins ssa.Instruction, set map[*ssa.Function]bool) bool {
+			ci, ok := ins.(ssa.CallInstruction)
+			if !ok {
+				return false
+			}
+			g := ci.Common().StaticCallee()
+			return g != nil && set[g]
+		}
+		binds := func(ef *actxEvalFrame, ins ssa.Instruction) bool { return isCall(ins, binders) }
+		// the cast of this statement: DeepCast against the annotated type of the let node
+		casts := func(ef *actxEvalFrame, ins ssa.Instruction) bool {
+			if !isCall(ins, map[*ssa.Function]bool{deepCast: true}) {
+				return false
+			}
+			args := ins.(ssa.CallInstruction).Common().Args
+			return len(args) >= 2 && ef.fr.sym(args[1]) == root+".OptType"
+		}
+		run := func(assume map[string]actxAbs) *actxEvalFrame {
+			ev := &actxKindEval{c: c, assume: assume}
+			return ev.newFrame(actxNewFrame(fn, nil, 0), map[*ssa.Parameter]actxAbs{})
+		}
+		on, off := run(map[string]actxAbs{flag: actxBoolAbs(true)}), run(map[string]actxAbs{flag: actxBoolAbs(false)})
+		var bad []string
+		at := func(ef *actxEvalFrame, h actxHit) string {
+			if r := ef.uncoveredReturn(h); r != nil {
+				return "return at " + c.Pos(r.Pos())
+			}
+			return "?"
+		}
+		if !on.mustPass(binds, nil) {
+			bad = append(bad, "the statement completes normally without binding the variable (flag set): "+at(on, binds))
+		}
+		if !off.mustPass(binds, nil) {
+			bad = append(bad, "the statement completes normally without binding the variable (flag not set): "+at(off, binds))
+		}
+		if !on.mustPass(casts, nil) {
+			bad = append(bad, "flag set but the value is bound without DeepCast: "+at(on, casts))
+		}
+		if off.mayPass(casts, nil) {
+			bad = append(bad, "flag not set but the value goes through DeepCast")
+		}
+		// with the flag set, what is bound is the result of the cast, not the raw initializer
+		for _, b := range fn.Blocks {
+			if !on.feasible[b] {
+				continue
+			}
+			for _, ins := range b.Instrs {
+				if !isCall(ins, binders) {
+					continue
+				}
+				fromCast := false
+				for _, a := range ins.(ssa.CallInstruction).Common().Args {
+					if _, isIface := a.Type().Underlying().(*types.Interface); !isIface {
+						continue
+					}
+					if call, _, _ := on.traceCast(a, deepCast, map[ssa.Value]bool{}); call != nil {
+						fromCast = true
+					}
+				}
+				if !fromCast {
+					bad = append(bad, "flag set, but the value bound at "+c.Pos(ins.Pos())+" is not the result of DeepCast")
+				}
+			}
+		}
 		if len(bad) > 0 {
 			ob.Status, ob.Detail = Violated, strings.Join(bad, " | ")
 		} else {
-			ob.Status, ob.Detail = Discharged, fmt.Sprintf("%d normal exits: bound on all, through DeepCast exactly when the flag is set", n)
+			ob.Status, ob.Detail = Discharged, "every normal exit has bound the variable; through DeepCast exactly when the flag is set"
 		}
 		out = append(out, ob)
 	}
@@ -369,74 +573,85 @@ func actxCastInterpLet(c *Ctx) []Obligation {
 
 // (d) ------------------------------------------------------------------------
 
+// actxVMMethod: the SSA function of an exported VM entry point.
+func actxVMMethod(c *Ctx, name string) *ssa.Function {
+	sp := c.SSAPkg("homescript/runtime")
+	t := sp.Type("VM")
+	if t == nil {
+		fatalf("anchor unresolved: runtime.VM")
+	}
+	fn := c.Prog.LookupMethod(types.NewPointer(t.Type()), sp.Pkg, name)
+	if fn == nil || fn.Blocks == nil {
+		fatalf("anchor unresolved: runtime.(*VM).%s", name)
+	}
+	return fn
+}
+
+func actxDeepCastFn(c *Ctx) *ssa.Function {
+	fn := c.SSAPkg("homescript/runtime/value").Func("DeepCast")
+	if fn == nil {
+		fatalf("anchor unresolved: runtime/value.DeepCast")
+	}
+	return fn
+}
+
+// actxInvocationParam: the parameter of the entry point that carries the
+// invocation (the struct with the argument list and the declared signature).
+func actxInvocationParam(fn *ssa.Function) *ssa.Parameter {
+	for _, p := range fn.Params {
+		st, ok := p.Type().Underlying().(*types.Struct)
+		if !ok {
+			continue
+		}
+		hasArgs, hasSig := false, false
+		for i := 0; i < st.NumFields(); i++ {
+			switch st.Field(i).Name() {
+			case "Args":
+				hasArgs = true
+			case "FunctionSignature":
+				hasSig = true
+			}
+		}
+		if hasArgs && hasSig {
+			return p
+		}
+	}
+	return nil
+}
+
+// The obligation is decided on the SSA form through the call graph: every call
+// that (transitively) starts the new core must be dominated by the exit of a
+// loop that visits every position i < len(Params) (= len(Args)), hands
+// Args[i] and Params[i].Type of the *same* invocation to DeepCast on every
+// iteration and cannot continue after a failed cast — whether that loop is
+// written in the entry point or in a helper that receives the invocation (or
+// its argument / parameter lists), and whether the cast itself is written in
+// the loop or in a per-argument helper.
 func actxCastSpawn(c *Ctx) []Obligation {
-	p := c.Pkg("homescript/runtime")
-	info := p.TypesInfo
 	var out []Obligation
+	deepCast := actxDeepCastFn(c)
+	base, all := actxSpawners(c, c.SSAPkg("homescript/runtime"))
 	for _, name := range []string{"SpawnSync", "SpawnAsync"} {
 		fd := c.MustFunc("homescript/runtime", "VM", name)
+		fn := actxVMMethod(c, name)
 		key := "homescript/runtime.VM." + name + "|DeepCast every argument"
 		ob := Obligation{Key: key, Pos: c.Pos(fd.Pos()), Nontrivial: true}
-		var loop *ast.RangeStmt
-		var why []string
-		for _, st := range fd.Body.List {
-			rs, ok := st.(*ast.RangeStmt)
-			if !ok {
-				continue
-			}
-			calls := actxCallsNamed(rs.Body, info, "DeepCast")
-			if len(calls) == 0 {
-				continue
-			}
-			loop = rs
-			// ranges over all declared parameters (or all arguments)
-			rx := exprStr(rs.X)
-			if !strings.HasSuffix(rx, "FunctionSignature.Params") && !strings.HasSuffix(rx, ".Args") {
-				why = append(why, "the validating loop ranges over "+rx+", not over the declared parameters / arguments")
-			}
-			ce := calls[0]
-			if len(ce.Args) < 2 || !strings.Contains(exprStr(ce.Args[1]), "Type") {
-				why = append(why, "DeepCast is not given the parameter's declared type")
-			}
-			// failure stops the invocation
-			stops := false
-			ast.Inspect(rs.Body, func(n ast.Node) bool {
-				if ifs, ok := n.(*ast.IfStmt); ok && strings.Contains(exprStr(ifs.Cond), "!= nil") {
-					for _, s := range ifs.Body.List {
-						if IsPanicCall(info, s) {
-							stops = true
-						}
-						if _, ok := s.(*ast.ReturnStmt); ok {
-							stops = true
-						}
-					}
-				}
-				return true
-			})
-			if !stops {
-				why = append(why, "a failed cast neither panics nor returns")
-			}
-			// no early continue/break before the cast
-			ast.Inspect(rs.Body, func(n ast.Node) bool {
-				if br, ok := n.(*ast.BranchStmt); ok && br.Pos() < ce.Pos() {
-					why = append(why, "the loop can skip an argument before casting it ("+br.Tok.String()+")")
-				}
-				return true
-			})
+		inv := actxInvocationParam(fn)
+		if inv == nil {
+			ob.Status, ob.Detail = Undecided, "no parameter carries the invocation (argument list + declared signature)"
+			out = append(out, ob)
+			continue
 		}
-		spawns := actxCallsNamed(fd.Body, info, "spawnCoreInternal")
+		fr := actxNewFrame(fn, nil, 0)
+		root := fr.sym(inv)
+		nsink, good, bad := actxCheckSpawn(c, fr, root, deepCast, base, all)
 		switch {
-		case loop == nil:
-			ob.Status, ob.Detail = Violated, "no top-level loop DeepCasts the invocation arguments"
-		case len(spawns) == 0:
-			ob.Status, ob.Detail = Undecided, "spawnCoreInternal is not called"
-		case spawns[0].Pos() < loop.End():
-			ob.Status, ob.Detail = Violated, "the core is spawned before the arguments are validated"
-		case len(why) > 0:
-			ob.Status, ob.Detail = Violated, strings.Join(why, "; ")
+		case nsink == 0:
+			ob.Status, ob.Detail = Undecided, "no call that spawns a core (a function starting the goroutine that runs it) is reachable"
+		case len(bad) > 0:
+			ob.Status, ob.Detail = Violated, strings.Join(actxUniq(bad), " || ")
 		default:
-			// a length test guarantees Args[index] exists for every parameter
-			ob.Status, ob.Detail = Discharged, "a top-level loop over "+exprStr(loop.X)+" DeepCasts each argument against its declared type and panics on failure, before spawnCoreInternal"
+			ob.Status, ob.Detail = Discharged, strings.Join(actxUniq(good), "; ")
 		}
 		out = append(out, ob)
 	}
@@ -445,90 +660,255 @@ func actxCastSpawn(c *Ctx) []Obligation {
 
 // (e) ------------------------------------------------------------------------
 
+// Decided per type kind on the SSA form: the handler (and the helpers it
+// hands the invocation to) is evaluated with `ReturnType.Kind()` fixed to each
+// constant of the kind enumeration, and once to "a kind different from every
+// declared constant"; conditions that depend only on the kind are folded,
+// whatever their syntactic form (switch, if-chain, early return, predicate
+// helper). On every feasible non-exception return the value handed to the host
+// must be the result of DeepCast against the declared return type.
 func actxCastTermination(c *Ctx) []Obligation {
-	p := c.Pkg("homescript/runtime")
-	info := p.TypesInfo
 	fd := c.MustFunc("homescript/runtime", "VM", "HandleTermination")
+	fn := actxVMMethod(c, "HandleTermination")
+	deepCast := actxDeepCastFn(c)
 	var out []Obligation
 	ob := Obligation{Key: "homescript/runtime.VM.HandleTermination|DeepCast the result", Pos: c.Pos(fd.Pos()), Nontrivial: true}
-	calls := actxCallsNamed(fd.Body, info, "DeepCast")
-	var sw *ast.SwitchStmt
-	ast.Inspect(fd.Body, func(n ast.Node) bool {
-		if s, ok := n.(*ast.SwitchStmt); ok && s.Tag != nil && strings.Contains(exprStr(s.Tag), "ReturnType.Kind()") {
-			sw = s
-		}
-		return true
-	})
-	switch {
-	case len(calls) == 0:
-		ob.Status, ob.Detail = Violated, "the value returned to the host is never DeepCast to the declared return type"
-	case sw == nil:
-		ob.Status, ob.Detail = Undecided, "no switch on the declared return type kind found"
-	default:
-		ce := calls[0]
-		var why []string
-		if len(ce.Args) < 2 || !strings.Contains(exprStr(ce.Args[1]), "ReturnType") {
-			why = append(why, "DeepCast is not given the declared return type")
-		}
-		// the cast result is what is returned
-		usesCast := false
-		ast.Inspect(fd.Body, func(n ast.Node) bool {
-			if as, ok := n.(*ast.AssignStmt); ok && len(as.Rhs) == 1 {
-				if strings.Contains(exprStr(as.Rhs[0]), "castValue") && strings.Contains(exprStr(as.Lhs[0]), "returnValue") {
-					usesCast = true
-				}
+	fail := func(st Status, d string) []Obligation {
+		ob.Status, ob.Detail = st, d
+		return append(out, ob)
+	}
+	inv := actxInvocationParam(fn)
+	if inv == nil {
+		return fail(Undecided, "no parameter carries the invocation (declared signature)")
+	}
+	// result record: the exception field (pointer) and the value field (interface)
+	sig := fn.Signature
+	if sig.Results().Len() != 1 {
+		return fail(Undecided, "the termination handler does not return one result record")
+	}
+	resType, _ := sig.Results().At(0).Type().(*types.Named)
+	var rst *types.Struct
+	if resType != nil {
+		rst, _ = resType.Underlying().(*types.Struct)
+	}
+	excField, valField := -1, -1
+	if rst != nil {
+		for i := 0; i < rst.NumFields(); i++ {
+			switch rst.Field(i).Type().Underlying().(type) {
+			case *types.Pointer:
+				excField = i
+			case *types.Interface:
+				valField = i
 			}
-			return true
-		})
-		_ = usesCast
-		inDefault := false
-		var skipped []string
-		for _, cl := range sw.Body.List {
-			cc := cl.(*ast.CaseClause)
-			has := len(actxCallsNamed(cc, info, "DeepCast")) > 0
-			if cc.List == nil {
-				inDefault = has
+		}
+	}
+	if excField < 0 || valField < 0 {
+		return fail(Undecided, "the result record has no exception / value field pair")
+	}
+	// the kind enumeration of the declared return type
+	fr0 := actxNewFrame(fn, nil, 0)
+	root := fr0.sym(inv)
+	rtPath := root + ".FunctionSignature.ReturnType"
+	var kindType types.Type
+	if sf, ok := inv.Type().Underlying().(*types.Struct); ok {
+		for i := 0; i < sf.NumFields(); i++ {
+			if sf.Field(i).Name() != "FunctionSignature" {
 				continue
 			}
-			if !has {
-				for _, e := range cc.List {
-					if k := ConstOf(info, e); k != nil {
-						skipped = append(skipped, k.Name())
+			if ss, ok := sf.Field(i).Type().Underlying().(*types.Struct); ok {
+				for j := 0; j < ss.NumFields(); j++ {
+					if ss.Field(j).Name() == "ReturnType" {
+						ms := types.NewMethodSet(ss.Field(j).Type())
+						for k := 0; k < ms.Len(); k++ {
+							if ms.At(k).Obj().Name() == "Kind" {
+								kindType = ms.At(k).Type().(*types.Signature).Results().At(0).Type()
+							}
+						}
 					}
 				}
 			}
 		}
-		if !inDefault {
-			why = append(why, "the cast is not in the default clause: new type kinds would bypass it")
+	}
+	if kindType == nil {
+		return fail(Undecided, "the declared return type has no Kind() method")
+	}
+	enum := c.EnumOf(kindType)
+	if enum == nil {
+		return fail(Undecided, "the kind of the declared return type is not an enumeration")
+	}
+	run := func(assume actxAbs) ([]actxRetInfo, bool) {
+		ev := &actxKindEval{c: c, assume: map[string]actxAbs{"Kind(" + rtPath + ")": assume}}
+		ef := ev.newFrame(actxNewFrame(fn, nil, 0), map[*ssa.Parameter]actxAbs{})
+		return ef.returns(resType, excField, valField, deepCast), true
+	}
+	// a kind that is none of the declared constants: the cast must not depend on an allow-list
+	infos, _ := run(actxAbs{k: abOther})
+	var why []string
+	nval, ncast := 0, 0
+	var und []string
+	checkCall := func(info actxRetInfo) {
+		call := info.cast
+		if len(call.Call.Args) < 2 || info.castFr.sym(call.Call.Args[1]) != rtPath {
+			why = append(why, "DeepCast is not given the declared return type")
 		}
-		if len(why) > 0 {
-			ob.Status, ob.Detail = Violated, strings.Join(why, "; ")
-		} else {
-			ob.Status, ob.Detail = Discharged, "default clause DeepCasts the top of the exited core's stack to invocation.FunctionSignature.ReturnType; a failed cast panics"
-		}
-		// kinds skipped must carry no value
-		valueless := map[string]bool{"NullTypeKind": true, "NeverTypeKind": true, "UnknownTypeKind": true}
-		for _, k := range skipped {
-			o := Obligation{Key: "homescript/runtime.VM.HandleTermination|no cast for " + k, Pos: c.Pos(sw.Pos()), Nontrivial: true}
-			if valueless[k] {
-				o.Status, o.Detail = Discharged, k+" carries no value: nothing crosses the boundary"
-			} else {
-				o.Status, o.Detail = Violated, "a function whose declared return type is "+k+" leaves a value on the stack, but HandleTermination neither casts nor returns it (ReturnValue stays nil)"
-			}
-			out = append(out, o)
+		if fs := actxFailSucc(call, 1); fs != nil && actxHasReturn(actxReach(fs)) {
+			why = append(why, "a failed cast of the result does not stop (the handler still returns)")
 		}
 	}
+	for _, info := range infos {
+		if info.undecided != "" {
+			und = append(und, info.undecided)
+			continue
+		}
+		if info.exception {
+			continue
+		}
+		nval++
+		if info.cast == nil {
+			why = append(why, fmt.Sprintf("for a type kind outside the explicitly skipped ones the return at %s is not cast: %s — new type kinds would bypass the cast", c.Pos(info.pos), info.why))
+			continue
+		}
+		ncast++
+		checkCall(info)
+	}
+	anyCast := false
+	for _, b := range fn.Blocks {
+		for _, ins := range b.Instrs {
+			if call, ok := ins.(*ssa.Call); ok {
+				if g := call.Call.StaticCallee(); g != nil && (g == deepCast || actxReachesFn(g, deepCast, 2)) {
+					anyCast = true
+				}
+			}
+		}
+	}
+	switch {
+	case !anyCast:
+		ob.Status, ob.Detail = Violated, "the value returned to the host is never DeepCast to the declared return type"
+	case len(und) > 0:
+		ob.Status, ob.Detail = Undecided, strings.Join(actxUniq(und), "; ")
+	case nval == 0:
+		ob.Status, ob.Detail = Undecided, "no return that hands a value to the host found"
+	case len(why) > 0:
+		ob.Status, ob.Detail = Violated, strings.Join(actxUniq(why), "; ")
+	default:
+		ob.Status, ob.Detail = Discharged, fmt.Sprintf("for every type kind that is not explicitly skipped, all %d value return(s) hand the host the result of DeepCast(top of the exited core's stack, invocation.FunctionSignature.ReturnType); a failed cast panics", ncast)
+	}
 	out = append(out, ob)
+	if len(und) > 0 || !anyCast {
+		return out
+	}
+	// kinds that are singled out (treated differently from "any other kind") and for
+	// which no cast happens must carry no value
+	otherUncast := map[token.Pos]bool{}
+	for _, info := range infos {
+		if info.undecided == "" && !info.exception && info.cast == nil {
+			otherUncast[info.pos] = true
+		}
+	}
+	valueless := map[string]bool{"NullTypeKind": true, "NeverTypeKind": true, "UnknownTypeKind": true}
+	for _, k := range enum.Consts {
+		infos, _ := run(actxAbs{k: abConst, c: k.Val()})
+		skipped, pos := "", token.NoPos
+		for _, info := range infos {
+			if info.undecided == "" && !info.exception && info.cast == nil && !otherUncast[info.pos] {
+				skipped, pos = info.why, info.pos
+			}
+		}
+		if skipped == "" {
+			continue
+		}
+		o := Obligation{Key: "homescript/runtime.VM.HandleTermination|no cast for " + k.Name(), Pos: c.Pos(pos), Nontrivial: true}
+		if valueless[k.Name()] {
+			o.Status, o.Detail = Discharged, k.Name()+" carries no value: nothing crosses the boundary"
+		} else {
+			o.Status, o.Detail = Violated, "a function whose declared return type is "+k.Name()+" leaves a value on the stack, but HandleTermination neither casts nor returns it ("+skipped+")"
+		}
+		out = append(out, o)
+	}
 	return out
+}
+
+// actxReachesFn: g reaches target through static calls (bounded depth).
+func actxReachesFn(g, target *ssa.Function, depth int) bool {
+	if g == target {
+		return true
+	}
+	if depth == 0 || g.Blocks == nil {
+		return false
+	}
+	for _, b := range g.Blocks {
+		for _, ins := range b.Instrs {
+			if ci, ok := ins.(ssa.CallInstruction); ok {
+				if h := ci.Common().StaticCallee(); h != nil && h != g && actxReachesFn(h, target, depth-1) {
+					return true
+				}
+			}
+		}
+	}
+	return false
 }
 
 // (f) ------------------------------------------------------------------------
 
+// The case of the VM's instruction dispatch for Opcode_Cast is found by the
+// exported constant; the cast it executes is found on the SSA form as the
+// DeepCast call (in that function between the clause's positions, or in a
+// helper of the package called from there) whose type argument is the Type
+// field of a compiler.CastInstruction. Every return reachable from the branch
+// taken when the error result is non-nil must hand back the result of
+// value.NewVMThrowInterrupt; a panic there is a host crash.
 func actxCastVMCatchable(c *Ctx) []Obligation {
 	p := c.Pkg("homescript/runtime")
 	info := p.TypesInfo
 	var out []Obligation
 	n := 0
+	deepCast := actxDeepCastFn(c)
+	throwFn := c.SSAPkg("homescript/runtime/value").Func("NewVMThrowInterrupt")
+	var castT types.Type
+	if t := c.SSAPkg("homescript/compiler").Type("CastInstruction"); t != nil {
+		castT = t.Type()
+	}
+	isCastInstrType := func(v ssa.Value) bool {
+		// v = (load of) the Type field of a CastInstruction
+		if u, ok := v.(*ssa.UnOp); ok && u.Op == token.MUL {
+			v = u.X
+		}
+		var base types.Type
+		switch x := v.(type) {
+		case *ssa.FieldAddr:
+			base = x.X.Type()
+		case *ssa.Field:
+			base = x.X.Type()
+		default:
+			return false
+		}
+		if pt, ok := base.Underlying().(*types.Pointer); ok {
+			base = pt.Elem()
+		}
+		return castT != nil && types.Identical(base, castT)
+	}
+	var sites func(fn *ssa.Function, lo, hi token.Pos, depth int) []*ssa.Call
+	sites = func(fn *ssa.Function, lo, hi token.Pos, depth int) []*ssa.Call {
+		var res []*ssa.Call
+		for _, b := range fn.Blocks {
+			for _, ins := range b.Instrs {
+				call, ok := ins.(*ssa.Call)
+				if !ok || (lo.IsValid() && (call.Pos() < lo || call.Pos() > hi)) {
+					continue
+				}
+				g := call.Call.StaticCallee()
+				if g == nil {
+					continue
+				}
+				if g == deepCast && len(call.Call.Args) >= 2 && isCastInstrType(call.Call.Args[1]) {
+					res = append(res, call)
+				} else if g.Pkg == fn.Pkg && g.Blocks != nil && depth < 2 && g != fn {
+					res = append(res, sites(g, token.NoPos, token.NoPos, depth+1)...)
+				}
+			}
+		}
+		return res
+	}
 	for _, fd := range AllFuncDecls(p) {
 		ast.Inspect(fd.Body, func(x ast.Node) bool {
 			cc, ok := x.(*ast.CaseClause)
@@ -546,40 +926,70 @@ func actxCastVMCatchable(c *Ctx) []Obligation {
 			}
 			n++
 			ob := Obligation{Key: "homescript/runtime." + FuncName(fd) + "|case Opcode_Cast|cast error is catchable", Pos: c.Pos(cc.Pos()), Nontrivial: true}
-			calls := actxCallsNamed(cc, info, "DeepCast")
+			fn := actxSSAOf(c, "homescript/runtime", fd)
+			if fn == nil {
+				ob.Status, ob.Detail = Undecided, "SSA form not found"
+				out = append(out, ob)
+				return false
+			}
+			calls := sites(fn, cc.Pos(), cc.End(), 0)
 			if len(calls) == 0 {
 				ob.Status, ob.Detail = Violated, "Opcode_Cast does not call DeepCast"
 				out = append(out, ob)
 				return false
 			}
 			var why []string
-			okRet := false
-			ast.Inspect(cc, func(y ast.Node) bool {
-				ifs, ok := y.(*ast.IfStmt)
-				if !ok || !strings.Contains(exprStr(ifs.Cond), "!= nil") {
-					return true
+			for _, call := range calls {
+				fs := actxFailSucc(call, 1)
+				if fs == nil {
+					why = append(why, "the error result of DeepCast is not turned into an interrupt")
+					continue
 				}
-				for _, s := range ifs.Body.List {
-					if rs, ok := s.(*ast.ReturnStmt); ok && len(rs.Results) == 1 {
-						if ce, ok := ast.Unparen(rs.Results[0]).(*ast.CallExpr); ok {
-							if f := CalleeOf(info, ce); f != nil && f.Name() == "NewVMThrowInterrupt" {
-								okRet = true
-							} else if f != nil {
-								why = append(why, "a failed cast returns "+f.Name()+"(…), not the catchable throw interrupt")
+				reach := actxReach(fs)
+				nret := 0
+				for b := range reach {
+					if len(b.Instrs) == 0 {
+						continue
+					}
+					switch t := b.Instrs[len(b.Instrs)-1].(type) {
+					case *ssa.Panic:
+						// only a panic the failing branch cannot avoid counts; a shared later panic site does not
+						if b == fs || fs.Dominates(b) {
+							why = append(why, "a failed cast panics the host")
+						}
+					case *ssa.Return:
+						if !(b == fs || fs.Dominates(b)) {
+							// the failing branch rejoins the normal flow
+							why = append(why, "the error result of DeepCast is not turned into an interrupt")
+							continue
+						}
+						nret++
+						okRet := false
+						for _, r := range t.Results {
+							v := r
+							if mi, ok := v.(*ssa.MakeInterface); ok {
+								v = mi.X
+							}
+							if cl, ok := v.(*ssa.Call); ok {
+								if g := cl.Call.StaticCallee(); g != nil && g == throwFn {
+									okRet = true
+								} else if g != nil && actxIsErrType(cl.Type()) {
+									why = append(why, "a failed cast returns "+g.Name()+"(…), not the catchable throw interrupt")
+									okRet = true
+								}
 							}
 						}
-					}
-					if IsPanicCall(info, s) {
-						why = append(why, "a failed cast panics the host")
+						if !okRet {
+							why = append(why, "the error result of DeepCast is not turned into an interrupt")
+						}
 					}
 				}
-				return true
-			})
-			if !okRet && len(why) == 0 {
-				why = append(why, "the error result of DeepCast is not turned into an interrupt")
+				if nret == 0 && len(why) == 0 {
+					why = append(why, "the error result of DeepCast is not turned into an interrupt")
+				}
 			}
 			if len(why) > 0 {
-				ob.Status, ob.Detail = Violated, strings.Join(why, "; ")
+				ob.Status, ob.Detail = Violated, strings.Join(actxUniq(why), "; ")
 			} else {
 				ob.Status, ob.Detail = Discharged, "DeepCast failure returns value.NewVMThrowInterrupt (the kind the exception branch of Core.Run hands to try/catch)"
 			}
@@ -601,4 +1011,239 @@ func actxCastVMCatchable(c *Ctx) []Obligation {
 		}
 	}
 	return out
+}
+
+// (g) ------------------------------------------------------------------------
+
+// actxCastSupersedes: at every call of DeepCast outside the two cast libraries
+// (both engines: interpreter let / `as`, VM Opcode_Cast, host arguments and
+// results) the admitted value is the *result* of the cast: DeepCast converts
+// while it validates (T into ?T, null into none, object into any-object, at
+// every depth), so a site that only looks at the error and hands the original
+// on admits a value that does not deeply conform to the target type. Per call
+// site, on the SSA form of the calling function: (A) the value result is
+// consumed (not discarded); (B) on the success path (the region dominated by
+// the branch taken when the error result is nil; the rest of the block when
+// the results are returned directly) the subject of the cast — the first
+// argument, the pointer / element address it was loaded from — is not used any
+// more (bound, pushed, stored, returned, merged with the result in a phi).
+func actxCastSupersedes(c *Ctx) []Obligation {
+	var out []Obligation
+	targets := map[*ssa.Function]bool{}
+	for _, rel := range []string{"homescript/runtime/value", "homescript/interpreter/value"} {
+		if f := c.SSAPkg(rel).Func("DeepCast"); f != nil {
+			targets[f] = true
+		}
+	}
+	if len(targets) == 0 {
+		fatalf("anchor unresolved: DeepCast")
+	}
+	n := 0
+	for _, rel := range []string{"homescript/interpreter", "homescript/runtime", "homescript"} {
+		if !c.HasPkg(rel) {
+			continue
+		}
+		fns := actxAllFuncs(c.SSAPkg(rel))
+		sort.Slice(fns, func(i, j int) bool { return fns[i].String() < fns[j].String() })
+		ordOf := map[*ssa.Function]int{}
+		for _, fn := range fns {
+			for _, b := range fn.Blocks {
+				for _, ins := range b.Instrs {
+					call, ok := ins.(*ssa.Call)
+					if !ok || !targets[call.Call.StaticCallee()] || len(call.Call.Args) < 1 {
+						continue
+					}
+					n++
+					ob := Obligation{Pos: c.Pos(call.Pos()), Nontrivial: true}
+					emit := func(o Obligation) {
+						// the site belongs to the function that supplies the subject: a helper that casts what
+						// it is handed (the subject derives from its parameter) is attributed to its callers, so
+						// that the construct keeps its key when the cast is moved into / out of a helper
+						for _, owner := range actxCastOwners(fn, call.Call.Args[0], fns, 0) {
+							ordOf[owner]++
+							name := owner.Name()
+							if owner.Signature.Recv() != nil {
+								name = recvTypeNameOfSSA(owner) + "." + name
+							}
+							o2 := o
+							o2.Key = fmt.Sprintf("%s.%s|DeepCast #%d|the cast result supersedes the subject", rel, name, ordOf[owner])
+							if owner != fn {
+								o2.Detail += " (cast performed in " + fn.Name() + ")"
+							}
+							out = append(out, o2)
+						}
+					}
+					// (A) result consumed
+					consumed := false
+					var results []ssa.Value
+					if refs := call.Referrers(); refs != nil {
+						for _, r := range *refs {
+							if ex, ok := r.(*ssa.Extract); ok && ex.Index == 0 {
+								results = append(results, ex)
+								if ex.Referrers() != nil {
+									for _, r2 := range *ex.Referrers() {
+										if _, dbg := r2.(*ssa.DebugRef); !dbg {
+											consumed = true
+										}
+									}
+								}
+							}
+							if _, isRet := r.(*ssa.Return); isRet {
+								consumed = true
+							}
+						}
+					}
+					if !consumed {
+						ob.Status, ob.Detail = Violated, "only the error result of DeepCast is looked at and the value result is discarded: the value that is handed on afterwards is the unconverted original (an int admitted for ?int stays an int, null admitted for an option stays null, an object admitted for an any-object keeps its static shape), so the admitted value does not deeply conform to the target type"
+						emit(ob)
+						continue
+					}
+					// (B) subject not used on the success path
+					subjects := map[ssa.Value]bool{}
+					x := call.Call.Args[0]
+					if mi, ok := x.(*ssa.MakeInterface); ok {
+						x = mi.X
+					}
+					subjects[x] = true
+					if u, ok := x.(*ssa.UnOp); ok && u.Op == token.MUL {
+						subjects[u.X] = true
+					}
+					inRegion := func(i ssa.Instruction) bool {
+						if fs := actxFailSucc(call, 1); fs != nil {
+							// the success successor: the other successor of the block that tests the error
+							for _, p := range fs.Preds {
+								if iff, ok := p.Instrs[len(p.Instrs)-1].(*ssa.If); ok && len(p.Succs) == 2 {
+									_ = iff
+									succ := p.Succs[0]
+									if succ == fs {
+										succ = p.Succs[1]
+									}
+									if succ != fs && (succ == i.Block() || succ.Dominates(i.Block())) {
+										return true
+									}
+								}
+							}
+							return false
+						}
+						return actxInstrDominates(call, i)
+					}
+					var reuse []string
+					for sv := range subjects {
+						refs := sv.Referrers()
+						if refs == nil {
+							continue
+						}
+						for _, r := range *refs {
+							if r == ssa.Instruction(call) {
+								continue
+							}
+							if _, dbg := r.(*ssa.DebugRef); dbg {
+								continue
+							}
+							if v, isVal := r.(ssa.Value); isVal && subjects[v] {
+								continue // the load the subject itself came from
+							}
+							if inRegion(r) {
+								reuse = append(reuse, c.Pos(actxInstrPos(r)))
+							}
+						}
+					}
+					if len(reuse) > 0 {
+						sort.Strings(reuse)
+						ob.Status, ob.Detail = Violated, "after a successful cast the original (unconverted) value is still used at "+strings.Join(actxUniq(reuse), ", ")+": what is bound / pushed / returned there is not the result of DeepCast, so the admitted value does not deeply conform to the target type"
+					} else {
+						ob.Status, ob.Detail = Discharged, "the value result of DeepCast is consumed and the subject is not used again on the success path"
+					}
+					emit(ob)
+				}
+			}
+		}
+	}
+	if n == 0 {
+		out = append(out, Obligation{Key: "DeepCast call sites", Status: Undecided, Detail: "no call of DeepCast outside the cast libraries found"})
+	}
+	return out
+}
+
+func recvTypeNameOfSSA(fn *ssa.Function) string {
+	t := fn.Signature.Recv().Type()
+	if p, ok := t.(*types.Pointer); ok {
+		t = p.Elem()
+	}
+	if n, ok := t.(*types.Named); ok {
+		return n.Obj().Name()
+	}
+	return t.String()
+}
+
+// actxInstrPos: a position for an instruction (phis and loads have none of their own).
+func actxInstrPos(i ssa.Instruction) token.Pos {
+	if p := i.Pos(); p.IsValid() {
+		return p
+	}
+	if v, ok := i.(ssa.Value); ok && v.Referrers() != nil {
+		for _, r := range *v.Referrers() {
+			if p := r.Pos(); p.IsValid() {
+				return p
+			}
+		}
+	}
+	for _, x := range i.Block().Instrs {
+		if p := x.Pos(); p.IsValid() {
+			return p
+		}
+	}
+	return i.Parent().Pos()
+}
+
+// actxCastOwners: the functions a cast site is attributed to. When the subject
+// of the cast derives from a parameter of the (unexported) function that
+// contains the call, the function is a helper casting what it is handed: the
+// site belongs to its static callers in the package (followed two levels).
+func actxCastOwners(fn *ssa.Function, subject ssa.Value, pkgFns []*ssa.Function, depth int) []*ssa.Function {
+	fr := actxNewFrame(fn, nil, 0)
+	s := fr.sym(subject)
+	if depth >= 2 || !strings.HasPrefix(s, "$"+fn.Name()+".") || fn.Object() == nil || fn.Object().Exported() {
+		return []*ssa.Function{fn}
+	}
+	// which parameter?
+	var param *ssa.Parameter
+	for _, p := range fn.Params {
+		ps := fr.sym(p)
+		if s == ps || strings.HasPrefix(s, ps+".") || strings.HasPrefix(s, ps+"[") {
+			param = p
+		}
+	}
+	if param == nil {
+		return []*ssa.Function{fn}
+	}
+	idx := 0
+	for i, p := range fn.Params {
+		if p == param {
+			idx = i
+		}
+	}
+	var owners []*ssa.Function
+	seen := map[*ssa.Function]bool{}
+	for _, g := range pkgFns {
+		for _, b := range g.Blocks {
+			for _, ins := range b.Instrs {
+				ci, ok := ins.(ssa.CallInstruction)
+				if !ok || ci.Common().StaticCallee() != fn || idx >= len(ci.Common().Args) {
+					continue
+				}
+				for _, o := range actxCastOwners(g, ci.Common().Args[idx], pkgFns, depth+1) {
+					if !seen[o] {
+						seen[o] = true
+						owners = append(owners, o)
+					}
+				}
+			}
+		}
+	}
+	if len(owners) == 0 {
+		return []*ssa.Function{fn}
+	}
+	sort.Slice(owners, func(i, j int) bool { return owners[i].String() < owners[j].String() })
+	return owners
 }
